@@ -497,6 +497,17 @@ def msLine (w : List String) : String :=
 
 end Ms
 
+/-- `dpre p rkind shapes skind chunks`: the receive is submitted before the datagram is sent; the result
+is that of sending and then receiving -/
+def dgramStep' (s : GState) (w : List String) : GState × String :=
+  match w with
+  | ["dpre", p, rkind, shapes, skind, ch] =>
+    let other := if p = "a" then "b" else "a"
+    let (s1, o1) := dgramStep s ["dsend", other, skind, ch]
+    let (s2, o2) := dgramStep s1 ["drecv", p, rkind, shapes]
+    (s2, o1 ++ " | " ++ o2)
+  | _ => dgramStep s w
+
 /-! ## dispatch -/
 
 structure DState where
@@ -525,7 +536,7 @@ def step (st : DState) (line : String) : DState × String :=
       let (l, o) := lockStep st.lock w
       ({ st with lock := l }, o)
     else if st.fam = "dgram" then
-      let (g, o) := dgramStep st.dg w
+      let (g, o) := dgramStep' st.dg w
       ({ st with dg := g }, o)
     else (st, "bad-op")
 
